@@ -71,6 +71,12 @@ type CmdSpec struct {
 	Own         *GroupSpec   `json:"own,omitempty"`
 	Groups      []*GroupSpec `json:"groups,omitempty"`
 	Commands    []*CmdSpec   `json:"commands,omitempty"`
+	// ViaTag: the command is declared by a `command:"..."` struct tag inside its
+	// parent's struct (possible for non-executable commands whose parent is the
+	// parser or another tag-declared command) instead of through AddCommand.
+	ViaTag bool `json:"via_tag,omitempty"`
+	// Usage: the command's data implements flags.Usage with this text (executable commands).
+	Usage string `json:"usage,omitempty"`
 }
 
 type DeclSpec struct {
@@ -383,6 +389,100 @@ func groupType(g *GroupSpec) reflect.Type {
 	return reflect.StructOf(fs)
 }
 
+func tagCmds(cs []*CmdSpec) []*CmdSpec {
+	var out []*CmdSpec
+	for _, c := range cs {
+		if c.ViaTag && !c.Exec {
+			out = append(out, c)
+		}
+	}
+	return out
+}
+
+// groupTypeEx is groupType plus one struct field per tag-declared subcommand.
+func groupTypeEx(g *GroupSpec, cmds []*CmdSpec) reflect.Type {
+	if g == nil {
+		g = &GroupSpec{}
+	}
+	base := groupType(g)
+	if len(cmds) == 0 {
+		return base
+	}
+	var fs []reflect.StructField
+	for i := 0; i < base.NumField(); i++ {
+		fs = append(fs, base.Field(i))
+	}
+	for i, c := range cmds {
+		var b strings.Builder
+		tagKV(&b, "command", c.Name)
+		if c.Short != "" {
+			tagKV(&b, "description", c.Short)
+		}
+		if c.Long != "" {
+			tagKV(&b, "long-description", c.Long)
+		}
+		for _, a := range c.Aliases {
+			tagKV(&b, "alias", a)
+		}
+		if c.SubOptional {
+			tagKV(&b, "subcommands-optional", "yes")
+		}
+		if c.Hidden {
+			tagKV(&b, "hidden", "yes")
+		}
+		fs = append(fs, reflect.StructField{Name: fmt.Sprintf("TagCmd%d", i), Type: groupTypeEx(c.Own, tagCmds(c.Commands)), Tag: reflect.StructTag(b.String())})
+	}
+	return reflect.StructOf(fs)
+}
+
+// bindTagCmds binds the option fields of tag-declared commands nested in v.
+func (b *Built) bindTagCmds(cmds []*CmdSpec, v reflect.Value, path []string, hidden bool) {
+	for i, c := range cmds {
+		p := append(append([]string{}, path...), c.Name)
+		fv := v.FieldByName(fmt.Sprintf("TagCmd%d", i))
+		h := hidden || c.Hidden
+		if c.Own != nil {
+			b.bindGroup(c.Own, fv, walkCtx{b: b, cmdPath: p, hidden: h, ownGroup: true}, "")
+		}
+		b.bindTagCmds(tagCmds(c.Commands), fv, p, h)
+	}
+}
+
+// finishTagCmds looks the tag-declared commands up in the library's tree and adds
+// what can only be added through the API (extra groups, API-declared children).
+func (b *Built) finishTagCmds(parent *flags.Command, cmds []*CmdSpec, path []string, hidden bool) error {
+	for _, c := range cmds {
+		p := append(append([]string{}, path...), c.Name)
+		fc := parent.Find(c.Name)
+		if fc == nil {
+			return fmt.Errorf("tag-declared command %q was not created by the library", strings.Join(p, "."))
+		}
+		b.Cmds = append(b.Cmds, &BuiltCmd{Path: p, Spec: c, Cmd: fc})
+		h := hidden || c.Hidden
+		for _, g := range c.Groups {
+			rv := reflect.New(groupType(g))
+			b.bindGroup(g, rv.Elem(), walkCtx{b: b, cmdPath: p, hidden: h}, g.Name)
+			fg, err := fc.AddGroup(g.Name, g.Long, rv.Interface())
+			if err != nil {
+				return err
+			}
+			applyGroupAttrs(fg, g)
+		}
+		if err := b.finishTagCmds(fc, tagCmds(c.Commands), p, h); err != nil {
+			return err
+		}
+		for _, sc := range c.Commands {
+			if sc.ViaTag && !sc.Exec {
+				continue
+			}
+			if err := b.addCmd(fc, sc, p, h); err != nil {
+				return err
+			}
+		}
+	}
+	return nil
+}
+
 // ---- built declaration ----------------------------------------------------
 
 type BuiltOpt struct {
@@ -524,16 +624,22 @@ func Build(spec *DeclSpec) (b *Built) {
 	}()
 	opts := flags.Options(spec.Options)
 	var p *flags.Parser
+	var topTag []*CmdSpec
+	if spec.Root != nil {
+		topTag = tagCmds(spec.Commands)
+	}
 	if spec.UseNewParser && spec.Root != nil {
-		rv := reflect.New(groupType(spec.Root))
+		rv := reflect.New(groupTypeEx(spec.Root, topTag))
 		b.bindGroup(spec.Root, rv.Elem(), walkCtx{b: b}, spec.Root.Name)
+		b.bindTagCmds(topTag, rv.Elem(), nil, false)
 		p = flags.NewParser(rv.Interface(), opts)
 		p.Name = spec.App
 	} else {
 		p = flags.NewNamedParser(spec.App, opts)
 		if spec.Root != nil {
-			rv := reflect.New(groupType(spec.Root))
+			rv := reflect.New(groupTypeEx(spec.Root, topTag))
 			b.bindGroup(spec.Root, rv.Elem(), walkCtx{b: b}, spec.Root.Name)
+			b.bindTagCmds(topTag, rv.Elem(), nil, false)
 			g, err := p.AddGroup(spec.Root.Name, spec.Root.Long, rv.Interface())
 			if err != nil {
 				b.Err = err
@@ -564,7 +670,14 @@ func Build(spec *DeclSpec) (b *Built) {
 		}
 		applyGroupAttrs(fg, g)
 	}
+	if err := b.finishTagCmds(p.Command, topTag, nil, false); err != nil {
+		b.Err = err
+		return b
+	}
 	for _, c := range spec.Commands {
+		if c.ViaTag && !c.Exec && spec.Root != nil {
+			continue
+		}
 		if err := b.addCmd(p.Command, c, nil, false); err != nil {
 			b.Err = err
 			return b
@@ -645,7 +758,9 @@ func (b *Built) addCmd(parent *flags.Command, c *CmdSpec, path []string, hidden 
 	hidden = hidden || c.Hidden
 	var data interface{}
 	var ownVal reflect.Value
-	if c.Exec {
+	if c.Exec && c.Usage != "" {
+		data = &UsageNode{CmdNode: CmdNode{path: strings.Join(path, ".")}, usage: c.Usage}
+	} else if c.Exec {
 		data = &CmdNode{path: strings.Join(path, ".")}
 	} else {
 		own := c.Own
